@@ -22,7 +22,7 @@ func r091(c *Ctx, r *R) {
 	f := c.fn(r, "monitor/metrics", "Store.LatestValid")
 	if f != nil {
 		n := 0
-		for _, ci := range callsIn(f) {
+		for _, ci := range callsInDeep(f) { // also in a helper extracted from LatestValid
 			if callName(ci.Common()) != "builtin.append" {
 				continue
 			}
@@ -43,13 +43,11 @@ func r091(c *Ctx, r *R) {
 			r.Check(isLatest, "latestvalid:value", ci.Pos(), "what is reported is the window's latest metric", "LatestValid reports something other than Window.Latest()")
 			// one append per map entry: the append is in a range over byPeer, not nested in another loop
 			loops := 0
-			for _, blk := range f.Blocks {
-				for _, in := range blk.Instrs {
-					if _, ok := in.(*ssa.Range); ok {
-						loops++
-					}
+			instrsDeep(f, func(in ssa.Instruction) {
+				if _, ok := in.(*ssa.Range); ok {
+					loops++
 				}
-			}
+			})
 			r.Check(loops == 1, "latestvalid:one-per-peer", ci.Pos(), "one pass over the per-peer map: at most one metric per peer", "LatestValid iterates more than the per-peer map (a peer may be reported more than once)")
 		}
 		if n != 1 {
